@@ -5,7 +5,7 @@ sys.path.insert(0, os.path.join(VERIF, "e2"))
 from e2glue import e2_run as _e2
 from kb import Harness
 
-CFGS = {"quick": ["sse2"], "thorough": ["sse2"]}
+CFGS = {"quick": ["sse2"], "thorough": ["sse2", "scalar"]}
 BOUNDS = ("E2-R on the optimised IR of the SSE2 and scalar-math builds, Quat and DQuat: Hamilton product (4 polynomial identities, exact on the integer lattice reported), conjugate, "
           "+ - scalar* scalar/ dot length_squared, normalize (with r = sqrt(len^2) as a constrained symbol), q*v for Vec3 and Vec3A == vector part of q (v,0) conj(q) for EVERY q, "
           "and its consequences |q*v|^2 = |q|^4 |v|^2, (q*p)*v = q*(p*v), conj(q)*(q*v) = |q|^4 v, (-q)*v = q*v, inverse(q)*(q*v) = v at |q| = 1; rounding outside the claim. "
@@ -45,8 +45,8 @@ def _mk(ks, Q, rd, wr, v3, wv3, elem, extra):
                 lambda x, o, h: [(f"{Q}::length", h.eq(o[0], h.sqrt(n2(x[0:4])))), (f"{Q}::length_recip", h.eq(o[1] * h.sqrt(n2(x[0:4])), 1))],
                 hyps=lambda x, h: [n2(x[0:4]) > 0], elem=elem, site=f"{Q}::length"))
     ks.append(K(f"{ql}_normalize", 4, 4, f"{wr}(o, 0, {rd}(i, 0).normalize());",
-                lambda x, o, h: [(f"{Q}::normalize[{j}] * |q| == q[{j}]", h.eq(o[j] * h.sqrt(n2(x[0:4])), x[j])) for j in range(4)] + [(f"{Q}::normalize has unit length", h.eq(n2(o), 1))],
-                hyps=lambda x, h: [n2(x[0:4]) > 0], elem=elem, site=f"{Q}::normalize", desc=f"{Q}::normalize == q / |q| for every non-zero q (also for q already near unit length)"))
+                lambda x, o, h: [(f"{Q}::normalize parallel ({a},{b})", h.eq(o[a] * x[b], o[b] * x[a])) for a in range(4) for b in range(a + 1, 4)] + [(f"{Q}::normalize has unit length", h.eq(n2(o), 1))],
+                hyps=lambda x, h: [n2(x[0:4]) > 0], elem=elem, site=f"{Q}::normalize", desc=f"{Q}::normalize(q) is parallel to q and has unit length for every non-zero q (also for q already near unit length)"))
     for vrd, vwr, V in [(v3, wv3, "Vec3" if elem == 4 else "DVec3")] + extra:
         vl = V.lower()
         rot = lambda x: R.quat_rotate_raw(x[0:4], x[4:7])
@@ -74,4 +74,17 @@ let a = q.mul_vec3(v); let b = Vec3::from(q.mul_vec3a(Vec3A::from(v))); let c = 
 va!("mul_vec3 == mul_vec3a x", a.x.same(b.x) && c.x.same(a.x) && d.x.same(a.x));
 va!("mul_vec3 == mul_vec3a y", a.y.same(b.y) && c.y.same(a.y) && d.y.same(a.y));
 va!("mul_vec3 == mul_vec3a z", a.z.same(b.z) && c.z.same(a.z) && d.z.same(a.z));"""
-    return [Harness("c04_quat_mul_vec3_vs_vec3a", body, backend="smt", desc="Quat::mul_vec3(v) == Vec3::from(Quat::mul_vec3a(v.into())) for all inputs (value equality), operator forms alike", site="Quat::mul_vec3")]
+    hs = []
+    if tier == "thorough":
+        for Q, sc in (("Quat", "f32"), ("DQuat", "f64")):
+            lanes = [f"p{i}" for i in range(8)]
+            draw = " ".join(f"let {l} = s.{sc}();" for l in lanes)
+            rng = " && ".join(f"({l} == -1.0 || {l} == 0.0 || {l} == 1.0)" for l in lanes)
+            i = [f"({l} as i32)" for l in lanes]
+            x1, y1, z1, w1, x2, y2, z2, w2 = i
+            want = [f"{w1} * {x2} + {x1} * {w2} + {y1} * {z2} - {z1} * {y2}", f"{w1} * {y2} - {x1} * {z2} + {y1} * {w2} + {z1} * {x2}",
+                    f"{w1} * {z2} + {x1} * {y2} - {y1} * {x2} + {z1} * {w2}", f"{w1} * {w2} - {x1} * {x2} - {y1} * {y2} - {z1} * {z2}"]
+            b = [draw, f"vassume!({rng});", f"let r = {Q}::from_xyzw(p0, p1, p2, p3) * {Q}::from_xyzw(p4, p5, p6, p7);"] + \
+                [f'va!("{Q}*{Q} exact on the lattice [{k}]", r.{"xyzw"[k]} == (({want[k]}) as {sc}));' for k in range(4)]
+            hs.append(Harness(f"c04_{Q.lower()}_mul_lattice", "\n".join(b), backend="sat", desc=f"{Q} * {Q} is the exact integer Hamilton product for ALL 3^8 operand pairs with components in {{-1,0,1}} (bit-precise)", site=f"{Q}::mul_quat", cap=900))
+    return hs + [Harness("c04_quat_mul_vec3_vs_vec3a", body, backend="smt", desc="Quat::mul_vec3(v) == Vec3::from(Quat::mul_vec3a(v.into())) for all inputs (value equality), operator forms alike", site="Quat::mul_vec3")]
